@@ -43,7 +43,8 @@ def build_request(r, rng):
         h += dup(rng, b"Host", b"localhost:9000", b"otherhost:9000")
     elif r["host"] == "badport":
         h.append(b"Host: localhost:abc")
-    up = {"ok": b"websocket", "ok-mixedcase": b"WebSocket", "ok-in-list": b"foo, websocket", "other": b"h2c"}.get(r["upgrade"])
+    up = {"ok": b"websocket", "ok-mixedcase": b"WebSocket", "ok-in-list": b"foo, websocket", "other": b"h2c",
+          "superstring": rng.choice([b"websocket2", b"xwebsocket", b"websockets", b"not-websocket/1.0"])}.get(r["upgrade"])
     if up is not None:
         h.append(variants(rng, b"Upgrade", up))
     co = {"ok": b"Upgrade", "ok-in-list": b"keep-alive, Upgrade", "other": b"close"}.get(r["conn"])
@@ -92,6 +93,9 @@ def build_request(r, rng):
         h.append(variants(rng, b"Sec-WebSocket-Extensions", b"x-foo-bar; a=1"))
     elif e == "dup":
         h += dup(rng, b"Sec-WebSocket-Extensions", b"permessage-deflate")
+    elif e == "emptyparam":
+        h.append(b"Sec-WebSocket-Extensions: " + rng.choice([b"permessage-deflate; client_max_window_bits=", b"x-unknown-ext; foo=", b";=",
+                                                              b"permessage-deflate; =", b"permessage-deflate;;"]))
     rng.shuffle(h)
     return line + b"\r\n" + b"\r\n".join(h) + b"\r\n\r\n", key
 
@@ -184,7 +188,8 @@ def build_response(p_, key, other_key, rng):
     st = {"ok": b"HTTP/1.1 101 Switching Protocols", "200": b"HTTP/1.1 200 OK", "404": b"HTTP/1.1 404 Not Found",
           "malformed": rng.choice([b"HTTP/1.1", b"FOO 101", b"HTTP/1.1 abc Switching"])}[p_["status"]]
     h = []
-    up = {"ok": b"websocket", "ok-mixedcase": b"WebSocket", "other": b"h2c"}.get(p_["upgrade"])
+    up = {"ok": b"websocket", "ok-mixedcase": b"WebSocket", "other": b"h2c",
+          "superstring": rng.choice([b"websocket2", b"xwebsocket", b"websockets", b"not-websocket/1.0"])}.get(p_["upgrade"])
     if up is not None:
         h.append(variants(rng, b"Upgrade", up))
     co = {"ok": b"Upgrade", "other": b"close"}.get(p_["conn"])
@@ -213,6 +218,8 @@ def build_response(p_, key, other_key, rng):
         h += dup(rng, b"Sec-WebSocket-Protocol", b"wamp.2.json", b"wamp.2.msgpack")
     if p_["exts"] == "unknown":
         h.append(b"Sec-WebSocket-Extensions: x-foo-bar")
+    elif p_["exts"] == "emptyparam":
+        h.append(b"Sec-WebSocket-Extensions: " + rng.choice([b"permessage-deflate; server_max_window_bits=", b"x-foo; a=", b";="]))
     rng.shuffle(h)
     return st + b"\r\n" + b"\r\n".join(h) + b"\r\n\r\n"
 
@@ -248,6 +255,55 @@ def run_client(inp, rng):
             obs = dict(opened=p.state == WSP.STATE_OPEN, dropped=t.dropped, escaped=esc, state=wsx.STATE[p.state])
             traces.append([dict(ev="cresp", resp=p_, seg=seg, obs=obs)])
             fw.reset()
+    return traces
+
+
+def run_limit(inp, rng):
+    """sequences of connections on ONE server factory with maxConnections = L"""
+    from harness.wsx import WebSocketServerFactory
+    traces = []
+    for L in (1, 2, 3):
+        for rep in range(inp.get("reps", 12)):
+            factory = WebSocketServerFactory("ws://localhost:9000")
+            factory.setProtocolOptions(maxConnections=L)
+            tr = [dict(ev="lstart", max=L)]
+            live = []
+            for _ in range(rng.randint(4, 14)):
+                if live and rng.random() < 0.4:
+                    p, t = live.pop(rng.randrange(len(live)))
+                    esc = ""
+                    try:
+                        fw.lose(p, clean=rng.random() < 0.5)
+                    except Exception as e:  # noqa
+                        esc = type(e).__name__
+                    tr.append(dict(ev="lclose", obs=dict(escaped=esc)))
+                    continue
+                log = []
+                p, t = wsx.make_server(log, factory=factory)
+                data, key = build_request(dict(line="ok", host="ok", upgrade="ok", conn="ok", version="ok", key="ok", origin="ok-absent",
+                                               protos="ok-none", exts="ok-none", onconn="ok-none"), rng)
+                esc = ""
+                for part in segment(data, rng.choice(["whole", "random"]), rng):
+                    e = fw.feed(p, part)
+                    if e is not None and not esc:
+                        esc = type(e).__name__
+                fw.settle()
+                status, _ = parse_response(bytes(t.written))
+                admitted = any(x[0] == "onOpen" for x in log)
+                d = t.dropped
+                dropped = bool(d() if callable(d) else d)
+                tr.append(dict(ev="lopen", obs=dict(admitted=admitted, status=status, dropped=dropped, escaped=esc)))
+                if admitted:
+                    live.append((p, t))
+                else:
+                    try:
+                        fw.lose(p, clean=False)          # the refused connection goes away
+                    except Exception as e:  # noqa
+                        tr[-1]["obs"]["escaped"] = type(e).__name__
+            for p, t in live:
+                fw.lose(p, clean=True)
+            fw.reset()
+            traces.append(tr)
     return traces
 
 
@@ -402,7 +458,7 @@ def run_fuzz(inp, rng):
 def main():
     inp = driver_in()
     rng = random.Random(int(os.environ.get("VERIF_SEED", "0")) * 6151 + inp.get("shard", 0) * 97 + 3)
-    fn = dict(server=run_server, client=run_client, creq=run_creq, pair=run_pair, fuzz=run_fuzz)[inp["mode"]]
+    fn = dict(server=run_server, client=run_client, creq=run_creq, pair=run_pair, fuzz=run_fuzz, limit=run_limit)[inp["mode"]]
     traces = fn(inp, rng)
     driver_out(dict(fw=fw.NAME, traces=traces, cases=len(traces)))
 
